@@ -10,6 +10,7 @@
 #include "common.h"
 
 #include <cnl/overflow_integer.h>
+#include "cnlval.h"
 
 #ifndef VF_PROP
 #define VF_PROP 6
@@ -517,6 +518,86 @@ void conv_to()
     prog_convert<long double, D>();
 }
 
+// ---- overflow_integer over CLASS-type representations that have a most negative number ------------------
+// (rounding_integer<int>, wide_integer<31,int>: the predicates must treat them like the built-in they hold)
+template<class Rep>
+[[gnu::noinline]] void prog_class_rep(const char* repname, bool with_div)
+{
+    std::string name = std::string("overflow_integer_over<") + repname + ">";
+    if (!vf::begin(name, false)) return;
+    auto const As = cv::space<Rep>(8, VF_TIER ? 1 : 3);
+    Big const lo = cv::lowest_of<Rep>();
+    using XS = cnl::overflow_integer<Rep, saturated_overflow_tag>;
+    using XT = cnl::overflow_integer<Rep, throwing_overflow_tag>;
+    using XR = cnl::overflow_integer<Rep, trapping_overflow_tag>;
+    auto mk = [](auto tagged, Big const& v) { return decltype(tagged)(cv::make_int<Rep>(v)); };
+    auto check = [&](const char* op, Big const& exact, std::string const& id, const char* region, auto&& f) {
+        // f(tagged zero of the wanted tag) evaluates the expression; the range judged is that of its result type
+        // (elastic representations grow, rounding_integer<int8_t> promotes)
+        auto one = [&](const char* tag, int tagkind, auto proto) {
+            using TR = decltype(f(proto));
+            using RR = cnl::_impl::rep_of_t<TR>;
+            Big const lo = cv::lowest_of<RR>(), hi = cv::max_of<RR>();
+            int expect = exact > hi ? E_POS : (exact < lo ? E_NEG : E_VALUE);
+            Big got;
+            vf::Outcome o = vf::run([&] { got = cv::int_value(f(proto)); });
+            vf::validated();
+            Got g = interpret<int>(o);
+#if VF_PROP == 7
+            bool intended = o.ok() || (((o.kind == vf::THROW_OVERFLOW && tagkind == 1) || (o.kind == vf::ABORT_HOOK && tagkind == 2)) && g.kind >= 0);
+            if (!intended) {
+                vf::outcome(o.str());
+                vf::violation(std::string(op) + "/" + tag + "/" + o.str() + "/" + region, id, id + " " + op + "<" + tag + ">: " + o.str() + " (exact result " + exact.str() + ")");
+            } else
+                vf::outcome(o.ok() ? "defined_value" : "defined_signal");
+            (void)expect;
+#else
+            std::string seen_s = g.kind < 0 ? g.other : ename(g.kind);
+            bool okay;
+            if (tagkind == 0) {
+                Big want = expect == E_VALUE ? exact : (expect == E_POS ? hi : lo);
+                okay = o.ok() && got == want;
+                if (o.ok() && !okay) seen_s = expect == E_VALUE ? "wrong_value" : (got == hi ? "clamped_max" : (got == lo ? "clamped_min" : "unclamped"));
+            } else {
+                bool right_channel = o.ok() || (tagkind == 1 ? o.kind == vf::THROW_OVERFLOW : o.kind == vf::ABORT_HOOK);
+                okay = right_channel && g.kind == expect && (expect != E_VALUE || got == exact);
+                if (o.ok() && expect == E_VALUE && !okay) seen_s = "wrong_value";
+                if (o.ok() && expect != E_VALUE) seen_s = "no_signal";
+            }
+            if (!okay) {
+                vf::outcome(std::string("bad_") + seen_s);
+                vf::violation(std::string(op) + "/" + tag + "/expected=" + ename(expect) + "/got=" + seen_s + "/" + region, id,
+                              id + " " + op + "<" + tag + ">: exact " + exact.str() + " expected " + ename(expect) + ", got " + (o.ok() ? got.str() : o.str()));
+            } else
+                vf::outcome(std::string("ok_") + tag + "_" + ename(expect));
+#endif
+        };
+        one("saturated", 0, XS{});
+        one("throwing", 1, XT{});
+        one("trapping", 2, XR{});
+    };
+    for (auto const& a : As) {
+        if (!vf::my_row()) continue;
+        {
+            std::string id = a.str();
+            if (!(vf::replaying() && !vf::case_selected(id))) {
+                vf::counted(true);
+                check("minus", -a, id, a == lo ? "most_negative_operand" : "other", [&](auto proto) { return -mk(proto, a); });
+            }
+        }
+        for (auto const& b : As) {
+            std::string id = a.str() + "," + b.str();
+            if (vf::replaying() && !vf::case_selected(id)) continue;
+            vf::counted(true);
+            const char* region = (a == lo || b == lo) ? "most_negative_operand" : "other";
+            check("add", a + b, id, region, [&](auto proto) { return mk(proto, a) + mk(proto, b); });
+            check("sub", a - b, id, region, [&](auto proto) { return mk(proto, a) - mk(proto, b); });
+            check("mul", a * b, id, region, [&](auto proto) { return mk(proto, a) * mk(proto, b); });
+            if (with_div && !b.is_zero()) check("div", a / b, id, region, [&](auto proto) { return mk(proto, a) / mk(proto, b); });
+        }
+    }
+}
+
 static void group()
 {
 #if VF_PART == 0
@@ -563,6 +644,13 @@ static void group()
     prog_unary<ci::minus_op, ll>("minus");
     prog_unary<ci::minus_op, wchar_t>("minus");
     prog_unary<ci::minus_op, char16_t>("minus");
+#elif VF_PART == 14
+    prog_class_rep<cnl::rounding_integer<int, cnl::native_rounding_tag>>("rounding_integer<int,native>", true);
+    prog_class_rep<cnl::rounding_integer<long long, cnl::native_rounding_tag>>("rounding_integer<long long,native>", true);
+    prog_class_rep<cnl::rounding_integer<int>>("rounding_integer<int,nearest>", false);
+    prog_class_rep<cnl::rounding_integer<i8, cnl::native_rounding_tag>>("rounding_integer<int8,native>", true);
+    prog_class_rep<cnl::wide_integer<31, int>>("wide_integer<31,int>", true);
+    prog_class_rep<cnl::elastic_integer<31>>("elastic_integer<31>", true);
 #elif VF_PART == 9
     conv_to<i8>();
     conv_to<u8>();
